@@ -63,7 +63,8 @@ oscore_cs_params(int8_t param, int8_t param_type, size_t *len) {
   *len += oscore_cbor_put_number(&pt, &rem_size, param_type);
   *len += oscore_cbor_put_number(&pt, &rem_size, param);
   uint8_t *result = coap_malloc_type(COAP_STRING, *len);
-  memcpy(result, buf, *len);
+  if (result)
+    memcpy(result, buf, *len);
   return result;
 }
 
@@ -81,7 +82,8 @@ oscore_cs_key_params(cose_curve_t param, int8_t param_type, size_t *len) {
   *len += oscore_cbor_put_number(&pt, &rem_size, param_type);
   *len += oscore_cbor_put_number(&pt, &rem_size, param);
   uint8_t *result = coap_malloc_type(COAP_STRING, *len);
-  memcpy(result, buf, *len);
+  if (result)
+    memcpy(result, buf, *len);
   return result;
 }
 
